@@ -744,6 +744,26 @@ fn handle(line: &str) -> String {
                 Err(e) => pair_err_str(&e),
             })
         }),
+        // clamp, then lift coordinates through the pair that clamp returned (a clamped pair is a pair like
+        // any other: the pairs a machine returns are clamped pairs)
+        ["pair_clamp_lift", r, q, iv, cs] => with_pair(r, q, |p| {
+            with_iv(iv, |iv| match p.clamp(iv) {
+                Ok(p2) => {
+                    let mut s = format!("ok {}", pair_str(&p2));
+                    for c in cs.split(',') {
+                        match coord_of(c) {
+                            None => return "badreq".into(),
+                            Some(c) => match p2.liftover(&c) {
+                                None => s.push_str(" ; none"),
+                                Some(c2) => s.push_str(&format!(" ; some {}", coord_str(&c2))),
+                            },
+                        }
+                    }
+                    s
+                }
+                Err(e) => pair_err_str(&e),
+            })
+        }),
         ["lapper", rest @ ..] => op_lapper(rest),
         ["raw", src] => src_of(src).map(op_raw).unwrap_or("badreq".into()),
         ["lines", src] => src_of(src).map(op_lines).unwrap_or("badreq".into()),
